@@ -74,10 +74,14 @@ func step(c *Chain, h *histWriter, o Op, mon *Monitors) string {
 	}
 	h.line("RES " + short)
 	if short != "panic" {
-		for _, l := range c.Dump() {
+		dump := c.Dump()
+		for _, l := range dump {
 			h.line("ST " + l)
 		}
 		if mon != nil {
+			for _, v := range mon.CheckAtomic(o, short, dump) {
+				h.line("MON " + v)
+			}
 			for _, v := range mon.Check(c, o, short) {
 				h.line("MON " + v)
 			}
